@@ -839,7 +839,11 @@ func zzC13SameDoc(a, b []byte, in yobj) (diff string) {
 		return "unparsable result: " + err.Error()
 	}
 
+	// A null password is hashed as the empty string.
 	pass, hasPass := in["auth_pass"].(string)
+	if v, has := in["auth_pass"]; has && v == nil {
+		hasPass = true
+	}
 	for _, d := range []yobj{da, db} {
 		us, _ := d["users"].([]any)
 		for _, u := range us {
@@ -1082,9 +1086,11 @@ func TestZZVerifC13Replay(t *testing.T) {
 
 // ------------------------------------------------------------- direction B
 
-// TestZZVerifC13Trace drives random documents with several simultaneous
-// deviations (a larger universe than TLC enumerates) and records the facts
-// the statement talks about; TraceMigrate.tla decides.
+// TestZZVerifC13Trace proposes seeded random documents with several
+// simultaneous deviations (a larger universe than TLC enumerates on its
+// own).  Only the proposals are recorded here: TraceMigrate.tla evaluates
+// them with Migrate.tla's own operators (and checks its invariants on them),
+// and the admissible sets it returns are replayed by TestZZVerifC13Replay.
 func TestZZVerifC13Trace(t *testing.T) {
 	w := zzNewWriter(t, "VERIF_OUT")
 	defer w.close()
@@ -1105,86 +1111,31 @@ func TestZZVerifC13Trace(t *testing.T) {
 
 		cells := zzC13Abs(doc)
 		nd := 2 + rng.Intn(4)
-		var devs []zzC13Dev
+		devs := []zzC13Dev{}
 		for j := 0; j < nd; j++ {
 			c := cells[rng.Intn(len(cells))]
-			if c.K == "schema_version" || c.K == "fl0" || c.K == "cl0" || strings.HasPrefix(c.K, "fl0") {
+			switch rng.Intn(8) {
+			case 0:
+				c = zzC13Cell{K: "zz_extra"}
+			case 1:
+				c = zzC13Cell{K: "dns.zz_extra"}
+			}
+			if c.K == "schema_version" || strings.HasPrefix(c.K, "fl0") || strings.HasPrefix(c.K, "cl0") ||
+				c.K == "coredns" || (v < 2 && c.K == "dns") {
 				continue
 			}
-			devs = append(devs, zzC13Dev{K: c.K, D: kinds[rng.Intn(len(kinds))]})
-		}
-		// Extra keys nobody knows, at the top and inside sections.
-		extra := []string{"zz_unknown"}
-		for _, c := range cells {
-			if c.V == "sec" && c.K != "cl0" && c.K != "fl0" && c.K != "coredns" && rng.Intn(3) == 0 {
-				extra = append(extra, c.K+".zz_unknown")
+
+			d := zzC13Dev{K: c.K, D: kinds[rng.Intn(len(kinds))]}
+			if strings.HasSuffix(c.K, "zz_extra") {
+				d.D = "str"
 			}
+			devs = append(devs, d)
 		}
 
-		in, body, ok, err := zzC13Conc(v, devs)
-		if err != nil || !ok {
+		if _, _, ok, cerr := zzC13Conc(v, devs); cerr != nil || !ok {
 			continue
 		}
-		var kept []string
-		for _, e := range extra {
-			if zzC13Set(in, e, "kept", false) {
-				kept = append(kept, e)
-			}
-		}
-		if body, err = yaml.Marshal(in); err != nil {
-			t.Fatal(err)
-		}
 
-		k := v + 1 + rng.Intn(zzC13Last-v+1)
-		rec := map[string]any{"v": v, "devs": devs, "k": k, "input": string(body)}
-		one := zzC13Migrate(body, zzC13Last)
-		rec["one"] = one.Kind
-		rec["one_same"] = one.Same
-		rec["msg"] = one.Msg
-		rec["stamp"] = -1
-		rec["extras_kept"] = true
-		rec["again"] = "n/a"
-		if one.Kind == "ok" {
-			final := yobj{}
-			if err = yaml.Unmarshal(one.Body, &final); err == nil {
-				if sv, isInt := final["schema_version"].(int); isInt {
-					rec["stamp"] = sv
-				}
-				for _, e := range kept {
-					key := e
-					if got, has := zzC13Get(final, key); !has || got != "kept" {
-						// A section replaced wholesale by a step that
-						// concerns it takes its unknown keys with it; the
-						// spec lists those sections.
-						rec["extras_kept"] = false
-						rec["lost"] = e
-					}
-				}
-			}
-			again := zzC13Migrate(one.Body, zzC13Last)
-			rec["again"] = again.Kind
-		}
-
-		split := "n/a"
-		if k > v && k < zzC13Last && v < zzC13Last {
-			p1 := zzC13Migrate(body, k)
-			split = p1.Kind
-			if p1.Kind == "ok" {
-				p2 := zzC13Migrate(p1.Body, zzC13Last)
-				split = p2.Kind
-				if p2.Kind == "ok" && one.Kind == "ok" {
-					if d := zzC13SameDoc(one.Body, p2.Body, in); d != "" {
-						split = "differs"
-						rec["diff"] = d
-					}
-				} else if p2.Kind == "err" && !p2.Same {
-					split = "err-changed"
-				}
-			} else if p1.Kind == "err" && !p1.Same {
-				split = "err-changed"
-			}
-		}
-		rec["split"] = split
-		w.put(rec)
+		w.put(map[string]any{"v": v, "devs": devs})
 	}
 }
